@@ -151,6 +151,8 @@ CHECKS["C11"] = {
         {"test": "TestC11Decode", "prop": "C11/codec_decode", "quick": 60000, "thorough": 4000000, "shards_quick": 4, "shards_thorough": 8},
         {"fuzz": "FuzzMetadataDecode", "pkg": "./meta", "prop": "C11/fuzz_metadata_decode", "secs": 45},
         {"test": "TestC11EndToEnd", "prop": "C11/end_to_end", "pkg": "./conn", "quick": 8000, "thorough": 300000, "shards_quick": 16, "shards_thorough": 16, "gomaxprocs": 1},
+        # the same executable property under the race detector (thorough tier): the metadata packet is decoded from a buffer the reader reuses
+        {"test": "TestC11EndToEnd", "prop": "C11/end_to_end", "pkg": "./conn", "thorough": 16000, "shards_thorough": 16, "gomaxprocs": 1, "race": True, "thorough_only": True},
     ],
     "floors": {"C11/codec_roundtrip": {"empty_string": 0.2, "binary": 0.3, "long_string": 0.1}, "C11/codec_decode": {"rejected": 0.3, "accepted": 0.1},
                "C11/end_to_end": {"contexts_derived_from_shared_parent": 0.4, "abandoned_between_metadata_and_invoke": 0.038}},
